@@ -394,3 +394,40 @@ h!(q_from_box_lifetimes, 5, {
     drop(z);
     assert!(unsafe { ZB1_DROPS } == 1 && n_live() == 0);
 });
+
+
+// ---- unsizing a UniqueArc (unsize feature) neither destroys nor duplicates the value
+h!(q_unique_unsize_lifetimes, 5, {
+    let v: u8 = kani::any();
+    let u = UniqueArc::new([Dt::new(0, v), Dt::new(1, v)]);
+    let us: UniqueArc<[Dt]> = unsize::CoerceUnsize::unsize(u, unsize::Coercion::to_slice());
+    assert!(ledger_zero() && n_live() == 1, "unsizing destroyed the value or its block");
+    assert!(us.len() == 2 && us[0].v == v && us[1].id == 1);
+    let a = us.shareable();
+    let b = a.clone();
+    drop(a);
+    assert!(ledger_zero() && b[1].v == v);
+    drop(b);
+    assert!(ledger_is(0, 2) && n_live() == 0, "each element is destroyed exactly once, with the last handle");
+});
+// ---- zero-sized elements that own something, moved in through the Vec path: destroyed once, with the allocation
+static mut ZV_DROPS: usize = 0;
+struct ZV;
+impl Drop for ZV {
+    fn drop(&mut self) {
+        unsafe { ZV_DROPS += 1 };
+    }
+}
+h!(q_zst_owning_elements_vec, 6, {
+    let mut v = Vec::new();
+    v.push(ZV);
+    v.push(ZV);
+    let a: Arc<[ZV]> = Arc::from(v);
+    assert!(unsafe { ZV_DROPS } == 0, "zero-sized elements destroyed while the Arc owns them");
+    assert!(a.len() == 2);
+    let b = a.clone();
+    drop(a);
+    assert!(unsafe { ZV_DROPS } == 0);
+    drop(b);
+    assert!(unsafe { ZV_DROPS } == 2 && n_live() == 0, "each zero-sized element is destroyed exactly once");
+});
